@@ -7,6 +7,9 @@ use core::sync::atomic::*;
 
 use log::trace;
 
+#[cfg(feature = "verif")]
+use crate::verif;
+
 /// Atomic wrapper for types that can be converted into atomics
 ///
 /// See [`core::sync::atomic::AtomicU64`] for the documentation.
@@ -18,50 +21,133 @@ impl<T: Atomic> Atom<T> {
         Self(T::I::new(v.into()))
     }
     #[cfg_attr(feature = "log_trace", track_caller)]
+    #[cfg_attr(feature = "verif", allow(unreachable_code))]
     pub fn load(&self) -> T {
         trace!("{} load", core::panic::Location::caller());
+        #[cfg(feature = "verif")]
+        {
+            verif::point(verif::Kind::Load, &self.0);
+            let v = self.0.load();
+            verif::observed(verif::Kind::Load, &self.0, &v, false);
+            return v.into();
+        }
         self.0.load().into()
     }
     #[cfg_attr(feature = "log_trace", track_caller)]
+    #[cfg_attr(feature = "verif", allow(unreachable_code))]
     pub fn store(&self, v: T) {
         trace!("{} store", core::panic::Location::caller());
+        #[cfg(feature = "verif")]
+        {
+            verif::point(verif::Kind::Store, &self.0);
+            self.0.store(v.into());
+            verif::observed(verif::Kind::Store, &self.0, &0u64, true);
+            return;
+        }
         self.0.store(v.into());
     }
     #[cfg_attr(feature = "log_trace", track_caller)]
+    #[cfg_attr(feature = "verif", allow(unreachable_code))]
     pub fn swap(&self, v: T) -> T {
         trace!("{} swap", core::panic::Location::caller());
+        #[cfg(feature = "verif")]
+        {
+            verif::point(verif::Kind::Swap, &self.0);
+            let old = self.0.swap(v.into());
+            verif::observed(verif::Kind::Swap, &self.0, &old, true);
+            return old.into();
+        }
         self.0.swap(v.into()).into()
     }
     #[cfg_attr(feature = "log_trace", track_caller)]
+    #[cfg_attr(feature = "verif", allow(unreachable_code))]
     pub fn compare_exchange(&self, current: T, new: T) -> Result<T, T> {
         trace!("{} cmpxchg", core::panic::Location::caller());
+        #[cfg(feature = "verif")]
+        {
+            return verif_cas(&self.0, current.into(), new.into())
+                .map(Into::into)
+                .map_err(Into::into);
+        }
         match self.0.compare_exchange(current.into(), new.into()) {
             Ok(v) => Ok(v.into()),
             Err(v) => Err(v.into()),
         }
     }
     #[cfg_attr(feature = "log_trace", track_caller)]
+    #[cfg_attr(feature = "verif", allow(unreachable_code))]
     pub fn compare_exchange_weak(&self, current: T, new: T) -> Result<T, T> {
         trace!("{} cmpxchgw", core::panic::Location::caller());
+        #[cfg(feature = "verif")]
+        {
+            // No spurious failures under verification: one scheduling point per attempt
+            return verif_cas(&self.0, current.into(), new.into())
+                .map(Into::into)
+                .map_err(Into::into);
+        }
         match self.0.compare_exchange_weak(current.into(), new.into()) {
             Ok(v) => Ok(v.into()),
             Err(v) => Err(v.into()),
         }
     }
     #[cfg_attr(feature = "log_trace", track_caller)]
+    #[cfg_attr(feature = "verif", allow(unreachable_code))]
     pub fn try_update<F: FnMut(T) -> Option<T>>(&self, mut f: F) -> Result<T, T> {
         trace!("{} update", core::panic::Location::caller());
+        #[cfg(feature = "verif")]
+        {
+            // Same semantics as the standard library's `try_update`, but the load
+            // and every CAS attempt are separate hooked operations.
+            verif::point(verif::Kind::Load, &self.0);
+            let mut prev = self.0.load();
+            verif::observed(verif::Kind::Load, &self.0, &prev, false);
+            loop {
+                let Some(next) = f(prev.into()) else {
+                    return Err(prev.into());
+                };
+                match verif_cas(&self.0, prev, next.into()) {
+                    Ok(v) => return Ok(v.into()),
+                    Err(v) => prev = v,
+                }
+            }
+        }
         match self.0.try_update(|v| f(v.into()).map(Into::into)) {
             Ok(v) => Ok(v.into()),
             Err(v) => Err(v.into()),
         }
     }
     #[cfg_attr(feature = "log_trace", track_caller)]
+    #[cfg_attr(feature = "verif", allow(unreachable_code))]
     pub fn update<F: FnMut(T) -> T>(&self, mut f: F) -> T {
         trace!("{} update", core::panic::Location::caller());
+        #[cfg(feature = "verif")]
+        {
+            verif::point(verif::Kind::Load, &self.0);
+            let mut prev = self.0.load();
+            verif::observed(verif::Kind::Load, &self.0, &prev, false);
+            loop {
+                let next = f(prev.into());
+                match verif_cas(&self.0, prev, next.into()) {
+                    Ok(v) => return v.into(),
+                    Err(v) => prev = v,
+                }
+            }
+        }
         self.0.update(|v| f(v.into()).into()).into()
     }
 }
+/// Hooked strong compare exchange
+#[cfg(feature = "verif")]
+fn verif_cas<I: AtomicImpl>(atom: &I, current: I::V, new: I::V) -> Result<I::V, I::V> {
+    verif::point(verif::Kind::Cas, atom);
+    let r = atom.compare_exchange(current, new);
+    match &r {
+        Ok(v) => verif::observed(verif::Kind::Cas, atom, v, true),
+        Err(v) => verif::observed(verif::Kind::Cas, atom, v, false),
+    }
+    r
+}
+
 impl<T: Atomic + Default> Default for Atom<T> {
     fn default() -> Self {
         Self::new(Default::default())
@@ -123,7 +209,15 @@ macro_rules! atomic_trivial {
 macro_rules! fn_trivial {
     ($ty:ident ; $($name:ident),+) => {
         $(
+            #[cfg_attr(feature = "verif", allow(unreachable_code))]
             pub fn $name(&self, v: $ty) -> $ty {
+                #[cfg(feature = "verif")]
+                {
+                    verif::point(verif::Kind::Rmw, &self.0);
+                    let old = AtomicImpl::$name(&self.0, v);
+                    verif::observed(verif::Kind::Rmw, &self.0, &old, true);
+                    return old;
+                }
                 AtomicImpl::$name(&self.0, v)
             }
         )+
@@ -202,6 +296,12 @@ pub trait AtomicSlice<T: Copy + Atomic> {
 
 impl<T: Atomic> AtomicSlice<T> for [Atom<T>] {
     unsafe fn non_atomic(&self) -> &mut [T] {
+        #[cfg(feature = "verif")]
+        verif::point_raw(
+            verif::Kind::Bulk,
+            self.as_ptr() as usize,
+            core::mem::size_of_val(self),
+        );
         // cast to raw memory to let the compiler use vector instructions
         #[allow(invalid_reference_casting)]
         unsafe {
